@@ -366,8 +366,17 @@ func judgeOutcome(o *Outcome) caseResult {
 // runCases runs the cases one after the other in a child process, restarting
 // after a case that killed or hung the child; each(i, r) is called for every case.
 func runCases(cases []Case, known map[string]bool, quick bool, perCase time.Duration, each func(i int, r caseResult)) {
+	runCasesUntil(cases, known, quick, perCase, nil, each)
+}
+
+// runCasesUntil: as runCases, but gives up (silently) once stop() is true; used
+// by families in which one defect can make thousands of cases kill their child.
+func runCasesUntil(cases []Case, known map[string]bool, quick bool, perCase time.Duration, stop func() bool, each func(i int, r caseResult)) {
 	from := 0
 	for from < len(cases) {
+		if stop != nil && stop() {
+			return
+		}
 		x := runChild(Job{Mode: "cases", Cases: cases, FromT: from, Known: known, Quick: quick, HangS: int(perCase / time.Second)},
 			time.Duration(len(cases)-from)*perCase+time.Minute)
 		n := 0
@@ -480,6 +489,9 @@ func TestC04(t *testing.T) {
 	}
 	if only == "" || strings.Contains(only, "templates") {
 		run("templates", func() { superviseTemplates(rec, known) })
+	}
+	if only == "" || strings.Contains(only, "vandal") {
+		run("vandal", func() { superviseVandal(rec, known) })
 	}
 	wg.Wait()
 	if knownWG != nil {
